@@ -170,9 +170,9 @@ func pairList(ps []pair) string {
 	return strings.Join(s, ",")
 }
 
-func bi(x int64) *big.Int    { return big.NewInt(x) }
-func bu(x uint64) *big.Int   { return new(big.Int).SetUint64(x) }
-func pow2(n uint) *big.Int   { return new(big.Int).Lsh(big.NewInt(1), n) }
+func bi(x int64) *big.Int  { return big.NewInt(x) }
+func bu(x uint64) *big.Int { return new(big.Int).SetUint64(x) }
+func pow2(n uint) *big.Int { return new(big.Int).Lsh(big.NewInt(1), n) }
 func sortedU64(xs []uint64) []uint64 {
 	c := append([]uint64(nil), xs...)
 	sort.Slice(c, func(i, j int) bool { return c[i] < c[j] })
